@@ -414,10 +414,12 @@ impl RawOpaquePool {
         // SAFETY: Caller guarantees the handle is valid for this pool.
         let slab = unsafe { self.slabs.get_unchecked_mut(handle.slab_index()) };
 
+        // The slot is released but the object's destructor has not run yet - it runs when
+        // `removed` is dropped at the end of this function, after all bookkeeping is complete.
+        // The destructor is user code and may panic; the pool must be consistent when it does.
+        //
         // SAFETY: Caller guarantees the handle is valid for this pool.
-        unsafe {
-            slab.remove(handle.slab_handle());
-        }
+        let removed = unsafe { slab.remove(handle.slab_handle()) };
 
         // Update our tracked length since we just removed an object.
         // This cannot wrap around because we just removed an object,
@@ -435,6 +437,8 @@ impl RawOpaquePool {
                     .update_slab_status(handle.slab_index(), true);
             }
         }
+
+        drop(removed);
     }
 
     /// Removes an object from the pool and returns the object.
